@@ -222,7 +222,7 @@ pub async fn run_case(c: Case) -> Result<CaseInfo, Failure> {
             Op::SendBad { how, .. } => 2 + 70 * (how % 3),
             Op::Poll(_) => 3,
             Op::Ack { .. } => 5,
-            Op::StreamStart { qos, bad, declared } => 20 + qos % 2 + 2 * bad + if *declared == 0 { 8 } else { 0 },
+            Op::StreamStart { qos, bad, declared } => 20 + qos % 2 + 2 * bad + if *declared == 0 { 10 } else { 0 },
             Op::Chunk { len, .. } => 30 + len % 6,
             Op::StreamDrop(_) => 37,
             Op::Inbound(k) => 40 + k % 4,
@@ -271,7 +271,7 @@ fn op_strategy() -> BoxedStrategy<Op> {
     prop_oneof![
         6 => (kind, prop_oneof![6 => Just(0u8), 1 => 1u8..3]).prop_map(|(kind, own_id)| Op::Send { kind, again: false, own_id }),
         2 => (kind2, 0u8..3).prop_map(|(kind, how)| Op::SendBad { kind, how }),
-        4 => (0u8..2, prop_oneof![1 => Just(0u8), 6 => 1u8..12, 1 => Just(200u8)], prop_oneof![6 => Just(0u8), 1 => Just(1u8), 1 => Just(2u8)]).prop_map(|(qos, declared, bad)| Op::StreamStart { qos, declared, bad }),
+        4 => (0u8..2, prop_oneof![1 => Just(0u8), 6 => 1u8..12, 1 => Just(200u8)], prop_oneof![6 => Just(0u8), 1 => Just(1u8), 1 => Just(2u8), 2 => Just(3u8)]).prop_map(|(qos, declared, bad)| Op::StreamStart { qos, declared, bad }),
         8 => (0u8..2, prop_oneof![1 => Just(0u8), 2 => Just(1u8), 2 => Just(2u8), 4 => Just(3u8), 1 => Just(4u8), 2 => Just(5u8)]).prop_map(|(stream, len)| Op::Chunk { stream, len }),
         1 => (0u8..2).prop_map(Op::StreamDrop),
         3 => (0u8..4).prop_map(Op::Inbound),
@@ -331,6 +331,11 @@ fn fixed_cases() -> Vec<Case> {
                     ops.push(Op::Ack { n: 3, batch: false });
                     out.push(Case { role, limit: 4, write_hw: 0, peer_max: None, ops });
                 }
+            }
+            // the stream is created while a slot is free, parks behind another send, and is given up before it starts
+            if qos == 1 {
+                out.push(Case { role, limit: 1, write_hw: 0, peer_max: None, ops: vec![Op::StreamStart { qos, declared: 9, bad: 3 }, q1, Op::Poll(0), Op::Poll(1), Op::StreamDrop(0), Op::Ack { n: 1, batch: false }, Op::Poll(0), Op::Settle, q0, Op::Settle] });
+                out.push(Case { role, limit: 1, write_hw: 0, peer_max: None, ops: vec![Op::StreamStart { qos, declared: 9, bad: 3 }, q1, Op::Poll(0), Op::Poll(1), Op::Chunk { stream: 0, len: 5 }, Op::Ack { n: 1, batch: false }, Op::Poll(0), Op::Poll(1), Op::Chunk { stream: 0, len: 3 }, Op::Chunk { stream: 0, len: 3 }, Op::Settle] });
             }
             // under-delivery then drop; over-delivery; drop before the first chunk; zero-length stream
             out.push(Case { role, limit: 4, write_hw: 0, peer_max: None, ops: vec![Op::StreamStart { qos, declared: 9, bad: 0 }, Op::Chunk { stream: 0, len: 5 }, Op::StreamDrop(0), q0, Op::Settle] });
